@@ -75,6 +75,10 @@ def cmd_check(args):
             for item in fn():
                 item = dict(item)
                 item["check"] = name
+                if item.get("undecided"):
+                    # the source left the shapes this structural check recognises: undecided, not a violation
+                    undecided.append(f"UNSUPPORTED {name}: {item.get('name')}: {item.get('detail', '')}")
+                    continue
                 ground.append(item)
         except Exception as e:
             import traceback
